@@ -88,3 +88,98 @@ class map_gradient_coordinates_radial:
     }
     native_skip = ("centres-mapped", "radii-scaled")
     native_requires = lambda affine: affine.b == 0 and affine.c == 0
+
+
+# ---------------------------------------------------------------------------- gradient definitions
+
+COLOR = Record("nanoemoji.colors.Color")
+STOP = Record("nanoemoji.paint.ColorStop", color=COLOR)
+_EXT = OneOf(*[EnumConst("nanoemoji.paint.Extend", n) for n in ("PAD", "REPEAT", "REFLECT")])
+LIN2 = Record("nanoemoji.paint.PaintLinearGradient", extend=_EXT, stops=TupleOf(STOP, STOP), p0=PT, p1=PT, p2=PT)
+RAD2 = Record("nanoemoji.paint.PaintRadialGradient", extend=_EXT, stops=TupleOf(STOP, STOP), c0=PT, c1=PT, r0=Real, r1=Real)
+DEFS = Elem("defs", children=Int)
+
+
+@contract("nanoemoji.colors.Color.to_string", props=["C02", "C13"])
+class color_to_string:
+    assumed = True  # hex / named-colour formatting: string level, bounded tier only
+    args = {"self": COLOR}
+    returns = Str
+    ensures = {"function-of-the-colour": lambda self, result: result == ufn("css_colour", "str", self.red, self.green, self.blue, self.alpha)}
+    native = False
+    note = "CSS text of the colour"
+
+
+@contract("picosvg.svg_transform.Affine2D.tostring", props=["C02", "C13"], dep=True)
+class affine_tostring:
+    assumed = True
+    args = {"self": AFF}
+    returns = Str
+    ensures = {"function-of-the-affine": lambda self, result: result == ufn("affine_text", "str", spec.aff(self))}
+    native = False
+    note = "SVG transform text of the affine"
+
+
+def _ntos_arg(calls, k):
+    return calls["nanoemoji.svg._ntos"][k]
+
+
+def _dot(u, v):
+    return u[0] * v[0] + u[1] * v[1]
+
+
+def _cross(u, v):
+    return u[0] * v[1] - u[1] * v[0]
+
+
+@contract("nanoemoji.svg._define_linear_gradient", props=["C02", "C13"])
+class define_linear_gradient:
+    args = {"svg_defs": DEFS, "paint": LIN2, "transform": AFF}
+    requires = [lambda paint: (paint.p2[0] - paint.p0[0]) != 0 or (paint.p2[1] - paint.p0[1]) != 0]
+    ensures = {
+        "new-last-child-with-fresh-id": lambda svg_defs, result: len(svg_defs.children) == 1
+        and svg_defs.children[0].tag == "linearGradient"
+        and svg_defs.children[0].attrib["id"] == result,
+        # (x1, y1) = P0 and (x2, y2) = P3: the projection of P1 onto the line through P0
+        # perpendicular to P0P2 (COLR's rotation point folded into an SVG two-point gradient):
+        # P3 - P0 is perpendicular to P2 - P0, and P1 - P3 is parallel to P2 - P0
+        "x1y1-is-p0": lambda paint, calls: (_ntos_arg(calls, 0).args.n, _ntos_arg(calls, 1).args.n) == tuple(paint.p0),
+        "x2y2-is-the-projection-p3": lambda paint, calls: (
+            _dot((_ntos_arg(calls, 2).args.n - paint.p0[0], _ntos_arg(calls, 3).args.n - paint.p0[1]), (paint.p2[0] - paint.p0[0], paint.p2[1] - paint.p0[1])) == 0
+            and _cross((paint.p1[0] - _ntos_arg(calls, 2).args.n, paint.p1[1] - _ntos_arg(calls, 3).args.n), (paint.p2[0] - paint.p0[0], paint.p2[1] - paint.p0[1])) == 0
+        ),
+        "attributes-are-those-texts": lambda svg_defs, calls: all(
+            svg_defs.children[0].attrib[a] == _ntos_arg(calls, i).result for (i, a) in enumerate(("x1", "y1", "x2", "y2"))
+        ),
+        "user-space-units": lambda svg_defs: svg_defs.children[0].attrib["gradientUnits"] == "userSpaceOnUse",
+        "spread": lambda svg_defs, paint: ("spreadMethod" in svg_defs.children[0].attrib) == (paint.extend.name != "PAD")
+        and ("spreadMethod" not in svg_defs.children[0].attrib or svg_defs.children[0].attrib["spreadMethod"] == paint.extend.name.lower()),
+        "one-stop-element-per-stop-in-order": lambda svg_defs, paint: len(svg_defs.children[0].children) == len(paint.stops)
+        and all(ch.tag == "stop" for ch in svg_defs.children[0].children),
+        "stop-opacity-iff-not-opaque": lambda svg_defs, paint: all(
+            ("stop-opacity" in ch.attrib) == (st.color.alpha != 1) for (ch, st) in zip(svg_defs.children[0].children, paint.stops)
+        ),
+    }
+    native = False
+
+
+@contract("nanoemoji.svg._define_radial_gradient", props=["C02", "C13"])
+class define_radial_gradient:
+    args = {"svg_defs": DEFS, "paint": RAD2, "transform": AFF}
+    ensures = {
+        "new-child": lambda svg_defs, result: len(svg_defs.children) == 1
+        and svg_defs.children[0].tag == "radialGradient"
+        and svg_defs.children[0].attrib["id"] == result,
+        # COLR (c0, r0) -> SVG focal circle (fx, fy, fr); (c1, r1) -> (cx, cy, r)
+        "focal-point-iff-centres-differ": lambda svg_defs, paint: ("fx" in svg_defs.children[0].attrib) == (tuple(paint.c0) != tuple(paint.c1))
+        and ("fy" in svg_defs.children[0].attrib) == (tuple(paint.c0) != tuple(paint.c1)),
+        "focal-radius-iff-nonzero": lambda svg_defs, paint: ("fr" in svg_defs.children[0].attrib) == (paint.r0 != 0),
+        "end-circle": lambda svg_defs, paint: svg_defs.children[0].attrib["cx"] == ufn("ntos_round3", "str", paint.c1[0])
+        and svg_defs.children[0].attrib["cy"] == ufn("ntos_round3", "str", paint.c1[1])
+        and svg_defs.children[0].attrib["r"] == ufn("ntos_round3", "str", paint.r1),
+        "focal-values": lambda svg_defs, paint: ("fx" not in svg_defs.children[0].attrib or svg_defs.children[0].attrib["fx"] == ufn("ntos_round3", "str", paint.c0[0]))
+        and ("fy" not in svg_defs.children[0].attrib or svg_defs.children[0].attrib["fy"] == ufn("ntos_round3", "str", paint.c0[1]))
+        and ("fr" not in svg_defs.children[0].attrib or svg_defs.children[0].attrib["fr"] == ufn("ntos_round3", "str", paint.r0)),
+        "user-space-units": lambda svg_defs: svg_defs.children[0].attrib["gradientUnits"] == "userSpaceOnUse",
+    }
+    native = False
